@@ -46,20 +46,21 @@ type Line struct {
 
 // Behaviour is the input: where to start and what to do.
 type Behaviour struct {
-	ID          string          `json:"id"`
-	Unit        string          `json:"unit"`   // micro-credits per abstract unit
-	Render      int             `json:"render"` // decimal rendering profile
-	Seed        int64           `json:"seed"`
-	Family      string          `json:"family"`  // "eco" (default) | "data"
-	Genesis     json.RawMessage `json:"genesis"` // abstract state, or "default"
-	Weak        *WeakHash       `json:"weak,omitempty"`
-	Steps       []M             `json:"steps"`
-	Driver      int             `json:"driver"`       // number of code-led driver steps appended to Steps
-	ReplicaEnd  int             `json:"replica_end"`  // driver behaviours: a Replica(n) observation after the last driver step
-	ProbeAfter  bool            `json:"probe_after"`  // run ProbeMsgs after Steps (data family: a state is reached by replaying a path)
-	ExportEvery int             `json:"export_every"` // driver behaviours: an ExportImport observation after every k-th driver step
-	Probes      int             `json:"probes"`
-	ProbeMsgs   []M             `json:"probe_msgs"` // edge cover: these messages are tried on throw-away branches of the genesis state // after every step: this many driver messages tried on throw-away branches of the state
+	ID           string          `json:"id"`
+	Unit         string          `json:"unit"`   // micro-credits per abstract unit
+	Render       int             `json:"render"` // decimal rendering profile
+	Seed         int64           `json:"seed"`
+	Family       string          `json:"family"`  // "eco" (default) | "data"
+	Genesis      json.RawMessage `json:"genesis"` // abstract state, or "default"
+	Weak         *WeakHash       `json:"weak,omitempty"`
+	Steps        []M             `json:"steps"`
+	Driver       int             `json:"driver"`        // number of code-led driver steps appended to Steps
+	ReplicaEnd   int             `json:"replica_end"`   // driver behaviours: a Replica(n) observation after the last driver step
+	ProbeAfter   bool            `json:"probe_after"`   // run ProbeMsgs after Steps (data family: a state is reached by replaying a path)
+	SkipValidate bool            `json:"skip_validate"` // edge cover: import a reachable state even if the genesis validators reject it
+	ExportEvery  int             `json:"export_every"`  // driver behaviours: an ExportImport observation after every k-th driver step
+	Probes       int             `json:"probes"`
+	ProbeMsgs    []M             `json:"probe_msgs"` // edge cover: these messages are tried on throw-away branches of the genesis state // after every step: this many driver messages tried on throw-away branches of the state
 
 	weakResolved bool
 }
@@ -152,10 +153,15 @@ func (r *runner) run() {
 		must(json.Unmarshal(b.Genesis, &st))
 		gi = r.prof.GenesisFromState(r.app, st)
 	}
-	// the properties speak about histories from a VALID genesis
-	if err := r.app.eco.ValidateGenesis(r.app.cdc, nil, gi.Ecocredit); err != nil {
-		r.fatal = "genesis rejected by the module's own validation: " + err.Error()
-		return
+	// the properties speak about histories from a VALID genesis.  The edge cover imports
+	// REACHABLE states as genesis; a reachable state that the validators reject (the recorded
+	// finding batch_start_eq_end) is still a state whose transitions must be covered, so those
+	// behaviours ask for the import without the validation (InitGenesis itself does not validate).
+	if !b.SkipValidate {
+		if err := r.app.eco.ValidateGenesis(r.app.cdc, nil, gi.Ecocredit); err != nil {
+			r.fatal = "genesis rejected by the module's own validation: " + err.Error()
+			return
+		}
 	}
 	if err := r.app.InitChain(gi); err != nil {
 		r.fatal = err.Error()
